@@ -9,6 +9,7 @@ import (
 
 	"github.com/wader/fq/internal/simrt"
 	"github.com/wader/fq/zzverif/sim/core"
+	"github.com/wader/fq/zzverif/sim/corpus"
 	"github.com/wader/fq/zzverif/sim/simos"
 	"github.com/wader/gojq"
 )
@@ -37,7 +38,7 @@ const (
 var inKindNames = []string{"json", "undecodable", "missing", "directory", "eacces", "eio", "png"}
 
 var cliBinSample = func() []byte {
-	b, err := os.ReadFile("/repo/format/png/testdata/4x4_palette.png")
+	b, err := os.ReadFile(corpus.Repo + "/format/png/testdata/4x4_palette.png")
 	if err != nil {
 		return nil
 	}
